@@ -1,13 +1,19 @@
 #!/bin/bash
-# usage: all_benign.sh <dir with */benign/b*/patch.diff or benign/<name>/patch.diff> [PID-filter]  -- development tool
-# Runs the quick check of the property a property-preserving change was written for against a scratch copy of
-# /repo/src with the change applied.  Expected: exit 0 (no VIOLATION, no machinery failure).
+# usage: all_benign.sh [benign/<dir> ...]   -- development tool, not a MANIFEST check
+# Runs the quick check of the property a *property-preserving* change (benign/<P>_b<i>/) was written for against a
+# scratch copy of /repo/src with the change applied.  Expected for every one: exit=0 (no VIOLATION, no machinery
+# failure).  Anything else is a false alarm (or a fragile harness) to be corrected in the machinery.
 cd /verif
-for p in "$@"; do
-  meta=$(dirname "$p")/meta.json
-  pid=$(/venv/bin/python -c "import json,sys; print(json.load(open('$meta'))['property'])" 2>/dev/null)
+dirs=("$@"); [ ${#dirs[@]} -eq 0 ] && dirs=(benign/*/)
+bad=0
+for d in "${dirs[@]}"; do
+  d=${d%/}
+  p=$(ls $d/patch_rebased*.diff 2>/dev/null | tail -1); [ -z "$p" ] && p=$d/patch.diff
+  pid=$(/venv/bin/python -c "import json; print(json.load(open('$d/meta.json'))['property'])" 2>/dev/null)
   out=$(TAIL=400 harness/mutant_run.sh "$p" "$pid" 2>&1 | grep -v "^WARNING\|^KNOWN-FINDING")
   rc=$(echo "$out" | grep -o "exit=[0-9]*" | tail -1)
-  echo "$rc $pid $p $(echo "$out" | grep -c '^VIOLATION') violations $(echo "$out" | grep -o 'clause=[^ ]*' | sort -u | head -5 | tr '\n' ' ')"
-  if [ "$rc" != "exit=0" ]; then echo "$out" | tail -15 | sed 's/^/    | /'; fi
+  echo "$rc $pid $d $(echo "$out" | grep -c '^VIOLATION') violations $(echo "$out" | grep -o 'clause=[^ ]*' | sort -u | head -5 | tr '\n' ' ')"
+  if [ "$rc" != "exit=0" ]; then bad=$((bad+1)); echo "$out" | tail -15 | sed 's/^/    | /'; fi
 done
+echo "$bad of ${#dirs[@]} property-preserving changes raised an alarm or broke the machinery"
+[ $bad -eq 0 ]
